@@ -911,10 +911,16 @@ def _mut_frame(rng, node):
     return opts
 
 
+KIND_WEIGHT = {"wrap:tuple": 0.15, "wrap:list": 0.3, "bytes->bytearray": 4.0, "reorder:odict": 3.0,
+               "odict->counter": 2.0, "ddict->counter": 2.0, "leaf:bool": 2.0, "leaf:complex": 2.0, "leaf:bytes": 1.5,
+               "none->str": 0.5}
+
+
 def mutate(rng, spec, prefer=None):
     """One look-alike mutant: (kind, parent_kind, new_spec) or None.  The mutant is valid (builds)."""
     ns = list(nodes(spec))
-    weights = [1 if n[1][0] == "leaf" else 4 for n in ns]
+    weights = [(4 if type(n[1][1]) is bytes else 2 if type(n[1][1]) in (bool, complex) else 1)
+               if n[1][0] == "leaf" else (7 if n[1][0] in ("odict", "ddict") else 4) for n in ns]
     for _ in range(12):
         path, node, parent, hreq, role = rng.choices(ns, weights)[0]
         opts = _mut_leaf(rng, node, hreq, role) if node[0] == "leaf" else _mut_container(rng, node, hreq)
@@ -924,7 +930,7 @@ def mutate(rng, spec, prefer=None):
             opts = pref or opts
         if not opts:
             continue
-        kind, new = rng.choice(opts)
+        kind, new = rng.choices(opts, [KIND_WEIGHT.get(o[0], 1.0) for o in opts])[0]
         if new[0] == "leaf" and len(new) == 2 and new[1] is None and kind.startswith("leaf:"):
             continue
         cand = set_at(copy.deepcopy(spec), path, copy.deepcopy(new))
